@@ -432,6 +432,8 @@ def make_fixture(env, fid, spec):
                 from testtools.content_type import ContentType
 
                 def boom():
+                    if spec["bad_detail"] == "kbd":
+                        _do_raise(env, None, ["raise", "kbd", "FXD:" + fid])
                     raise RuntimeError("detail of %s cannot be evaluated" % fid)
                 self.addDetail("zz-bad", Content(ContentType("text", "plain"), boom))
             nested = spec.get("nested")
